@@ -225,7 +225,7 @@ FairSpec == Spec /\ WF_vars(BfsStep \/ GreedyStep \/ AssembleStep)
 Inv_Depth == \A k \in 1..Len(results) : results[k].depth <= (IF strat = "graph" THEN limit ELSE 1) /\ results[k].depth <= limit
 \* an id is expanded only while it is strictly above the limit
 Inv_ExpandAboveLimit == \A k \in 1..Len(relLog) : visited[relLog[k]] < limit
-\* node cap: no VGetRelations call once |visited| >= MaxExpansionNodes
+\* node cap, every strategy: no VGetRelations call once |visited| >= MaxExpansionNodes
 Inv_Cap == \A k \in 1..Len(capLog) : capLog[k] < cap
 \* budget
 Inv_Budget == (pc = "done") => tot <= budget
